@@ -29,4 +29,14 @@ theorem kits_nextLevel : nextLevelPairs.all (fun ij =>
 theorem kits_sites : kits.all (fun r => r.site.all Nt.isBase && (r.site != rcNt r.site)) = true := by decide +kernel
 theorem kits_count : 85 ≤ kits.length := by decide +kernel
 
+/-- the YTK pair as the classes are now: the product's structure is the closed form `ytkProductPat`, the
+next-level class (`YTKEntry`) is matched with the generic module structure of BsaI, the entry vector's cutter
+is the product's -/
+theorem kits_ytk :
+    (match kits[ytkPair.1]?, kits[ytkPair.2.1]?, kits[ytkPair.2.2]? with
+     | some v, some prod, some nxt =>
+        (prod.pat == ytkProductPat) && (nxt.pat == moduleStructure bsaI) && (nxt.site == bsaI.site) &&
+        (nxt.off == bsaI.off) && (nxt.k == bsaI.k) && (v.site == prod.site) && (v.k == 4) && (prod.k == 4)
+     | _, _, _ => false) = true := by decide +kernel
+
 end Moclo.Tables
